@@ -198,7 +198,11 @@ var c13Exotics = []c13Exo{
 	// very long strings (the second one is folded by the YAML emitter)
 	c13MkExo("s", c13Q(strings.Repeat("x", 700))),
 	c13MkExo("s", c13Q(strings.TrimSpace(strings.Repeat("lorem ipsum dolor ", 40)))),
+	// LAST entry, never drawn as a value: null, the "delete this field" of a merge patch, in its YAML spellings
+	c13MkExo("s", "null", "~", "null", "Null", "NULL"),
 }
+
+var c13NullIdx = len(c13Exotics) - 1
 
 // c13ExoVal is the value put into the generic document; JSON rendering writes the JSON text.
 type c13ExoVal struct{ idx int }
@@ -208,7 +212,7 @@ func (v c13ExoVal) MarshalJSON() ([]byte, error) { return []byte(c13Exotics[v.id
 // exo picks an exotic scalar for a field of kind k (ConfigMap data: strings only).
 func (g *c13Gen) exo(k *c13Kind) int {
 	for {
-		i := g.rng.Intn(len(c13Exotics))
+		i := g.rng.Intn(c13NullIdx)
 		if k.ints || c13Exotics[i].str {
 			return c13ExoBase + i
 		}
@@ -1174,6 +1178,9 @@ func (g *c13Gen) genPatch() c13Doc {
 				} else {
 					es = append(es, c13Edit{"del", f, 0})
 					root[k.fields[f-1]] = nil
+					if form < 55 && rng.Chance(50) {
+						root[k.fields[f-1]] = c13ExoVal{c13NullIdx} // `~`, `Null`, ... in the YAML rendering
+					}
 				}
 			}
 		}
